@@ -65,7 +65,8 @@ fn main() {
             std::process::exit(2);
         }
     };
-    sweep::start_watchdog(120);
+    *sweep::PROPERTY.lock().unwrap() = args[1].clone();
+    sweep::start_watchdog(60);
     let code = match args[1].as_str() {
         "C01" => c_inputs::c01(tier),
         "C02" => c_inputs::c02(tier),
